@@ -6,6 +6,7 @@ import FlVerif.Drv.Term
 import FlVerif.Drv.Rules
 import FlVerif.Drv.Export
 import FlVerif.Drv.Defuzz
+import FlVerif.Drv.Lang
 
 /-! Registry of driver command groups: one handler per group, tried in order (`none` = not mine / malformed). -/
 
@@ -20,5 +21,6 @@ def handlers : List (List SExp → Option SExp) :=
   , exportCmd
   , reprCmd
   , defuzz
+  , lang
   ]
 end Drv
